@@ -117,8 +117,8 @@ fn pick_scenario(check: &Check, seed: u64) -> usize {
     0
 }
 
-pub fn execute(check: &Check, scenario: &Scenario, seed: u64, replay: Option<Vec<u32>>) -> RunReport {
-    let rc = RunCfg { seed, replay, max_polls: scenario.max_polls, classes: check.classes.clone(), max_virtual_secs: scenario.max_virtual_secs };
+pub fn execute(check: &Check, scenario: &Scenario, seed: u64, index: u64, replay: Option<Vec<u32>>) -> RunReport {
+    let rc = RunCfg { seed, index, replay, max_polls: scenario.max_polls, classes: check.classes.clone(), max_virtual_secs: scenario.max_virtual_secs };
     let mut r = kit::run_one(&rc, scenario.run);
     // Debug aid: turn budget aborts into pseudo-violations so that they get minimised and written out.
     if r.violation.is_none()
@@ -245,7 +245,7 @@ fn workers() -> usize {
 }
 
 /// Shrinks a failing choice list while the same violation kind (and signature) persists.
-fn shrink(check: &Check, scenario: &Scenario, seed: u64, orig: &RunReport, budget_runs: u32, budget: Duration) -> RunReport {
+fn shrink(check: &Check, scenario: &Scenario, seed: u64, index: u64, orig: &RunReport, budget_runs: u32, budget: Duration) -> RunReport {
     let target = orig.violation.clone().unwrap();
     let start = Instant::now();
     let mut best = orig.clone();
@@ -256,7 +256,7 @@ fn shrink(check: &Check, scenario: &Scenario, seed: u64, orig: &RunReport, budge
             return false;
         }
         *runs += 1;
-        let r = execute(check, scenario, seed, Some(list));
+        let r = execute(check, scenario, seed, index, Some(list));
         if same(&r) && r.choices.len() <= best.choices.len() {
             *best = r;
             true
@@ -323,7 +323,7 @@ fn shrink(check: &Check, scenario: &Scenario, seed: u64, orig: &RunReport, budge
         list.pop();
     }
     if list.len() != best.choices.len() {
-        let r = execute(check, scenario, seed, Some(list.clone()));
+        let r = execute(check, scenario, seed, index, Some(list.clone()));
         if same(&r) {
             best = r;
             best.choices = list;
@@ -378,7 +378,7 @@ pub fn replay(checks: &[Check], path: &Path, verbose: bool) -> i32 {
         eprintln!("harness error: unknown scenario {}", file.scenario);
         return 2;
     };
-    let r = execute(check, scenario, file.seed, Some(file.choices.clone()));
+    let r = execute(check, scenario, file.seed, file.run_index, Some(file.choices.clone()));
     if verbose {
         for n in &r.notes {
             println!("note: {n}");
@@ -413,7 +413,11 @@ pub fn replay(checks: &[Check], path: &Path, verbose: bool) -> i32 {
 pub fn run_check(check: &Check, tier: &str, all_checks_exe_replay: bool) -> i32 {
     let started = Instant::now();
     let vseed = verif_seed();
-    let (max_runs, max_secs) = if tier == "thorough" { check.thorough } else { check.quick };
+    let (mut max_runs, max_secs) = if tier == "thorough" { check.thorough } else { check.quick };
+    if max_runs == 0 {
+        // Enumerating checks compute the size of their case space at run time.
+        max_runs = crate::props::dynamic_runs(check.id, tier);
+    }
     let max_runs = std::env::var("SIM_RUNS").ok().and_then(|s| s.parse().ok()).unwrap_or(max_runs);
     let max_secs = std::env::var("SIM_SECS").ok().and_then(|s| s.parse().ok()).unwrap_or(max_secs);
     let known_all = load_known();
@@ -446,7 +450,7 @@ pub fn run_check(check: &Check, tier: &str, all_checks_exe_replay: bool) -> i32 
                     let seed = run_seed(vseed, check.id, idx);
                     let sc = pick_scenario(check, seed);
                     let scenario = &check.scenarios[sc];
-                    let r = execute(check, scenario, seed, None);
+                    let r = execute(check, scenario, seed, idx, None);
                     let new_violation = r.violation.as_ref().map(|v| !known.contains(&v.signature)).unwrap_or(false);
                     agg.absorb(idx, sc, scenario.name, r, &known);
                     if new_violation {
@@ -477,7 +481,7 @@ pub fn run_check(check: &Check, tier: &str, all_checks_exe_replay: bool) -> i32 
                 let text = known_all.iter().find(|k| k.signature == v.signature && k.property == check.id).map(|k| k.text.clone()).unwrap_or_default();
                 println!("KNOWN-FINDING: property={} {} [signature {}; {} runs]", check.id, text, v.signature, agg.known_hits.get(&v.signature).copied().unwrap_or(0));
                 if std::env::var_os("SIM_KEEP_KNOWN").is_some() {
-                    let min = shrink(check, scenario, seed, r, 300, Duration::from_secs(30));
+                    let min = shrink(check, scenario, seed, *idx, r, 300, Duration::from_secs(30));
                     let p = write_replay(check, scenario, seed, *idx, &min, true, r.choices.len(), "known-");
                     println!("  replay of known finding: {}", p.display());
                 }
@@ -488,13 +492,13 @@ pub fn run_check(check: &Check, tier: &str, all_checks_exe_replay: bool) -> i32 
             continue;
         }
         // Confirm determinism in-process first: the recorded choice list must reproduce.
-        let again = execute(check, scenario, seed, Some(r.choices.clone()));
+        let again = execute(check, scenario, seed, *idx, Some(r.choices.clone()));
         let same = again.violation.as_ref().map(|w| w.kind == v.kind && w.signature == v.signature).unwrap_or(false);
         if !same {
             harness_errors.push(format!("violation {} of run {idx} does not replay from its own choice list (got {:?})", v.kind, again.violation));
             continue;
         }
-        let min = shrink(check, scenario, seed, &again, 300, Duration::from_secs(30));
+        let min = shrink(check, scenario, seed, *idx, &again, 300, Duration::from_secs(30));
         let path = write_replay(check, scenario, seed, *idx, &min, true, r.choices.len(), "");
         // Replay in a fresh process.
         let ok = if all_checks_exe_replay {
@@ -635,7 +639,7 @@ pub fn determinism(checks: &[Check], only: Option<&str>, n: u64) -> i32 {
                         let mut i = t;
                         while i < n {
                             let seed = run_seed(vseed, check.id, 1_000_000 + si as u64 * 100_000 + i);
-                            let r1 = execute(check, scenario, seed, None);
+                            let r1 = execute(check, scenario, seed, i, None);
                             out.push((i, seed, r1));
                             i += w;
                         }
@@ -654,7 +658,7 @@ pub fn determinism(checks: &[Check], only: Option<&str>, n: u64) -> i32 {
                             if (k as u64 + 1) % w != t {
                                 continue;
                             }
-                            let r2 = execute(check, scenario, *seed, Some(r1.choices.clone()));
+                            let r2 = execute(check, scenario, *seed, *i, Some(r1.choices.clone()));
                             out.push((*i, r1.clone(), r2));
                         }
                         out
